@@ -252,3 +252,77 @@ fn castle_apply_undo_board_c() {
     assert!(b.peek_castle_rights() == rights0 && b.halfmove_clock() == half0 && b.fullmove_clock() == full0);
     assert!(b.current_position_hash() == hash0 && b.peek_en_passant_target() == Bitboard(0));
 }
+
+// ---------------------------------------------------------------------------------------------
+// two plies: C04's "any nesting depth" at depth 2, C16's clock across consecutive moves.
+// First ply: one of six fixed moves on board_a (quiet piece move, pawn push, double push, capture,
+// king move, rook move); second ply: a fully symbolic standard move by the other side; then both are
+// undone in reverse order and every observable is compared after each step.
+fn first_ply(k: u8) -> (u8, u8, Option<Capture>) {
+    match k {
+        0 => (18, 35, None),                               // Nc3-d5 (quiet)
+        1 => (12, 20, None),                               // e2-e3
+        2 => (8, 24, None),                                // a2-a4 (double step)
+        3 => (18, 28, None),                               // Nc3-e4 (quiet)
+        4 => (4, 5, None),                                 // Ke1-f1
+        _ => (7, 6, None),                                 // Rh1-g1
+    }
+}
+
+#[kani::proof]
+#[kani::unwind(70)]
+fn two_ply_apply_undo_board_a() {
+    let mut b = board_a();
+    b.push_halfmove_clock(5);
+    let k: u8 = kani::any();
+    kani::assume(k < 6);
+    let (f1, t1, c1) = first_ply(k);
+    let p1 = b.get(sq(f1)).unwrap().0;
+    let half0 = b.halfmove_clock();
+    let full0 = b.fullmove_clock();
+    let hash0 = b.current_position_hash();
+    let rights0 = b.peek_castle_rights();
+    let ep0 = b.peek_en_passant_target();
+    let m1 = StandardChessMove::new(sq(f1), sq(t1), c1);
+    assert!(m1.apply(&mut b).is_ok());
+    let half1 = b.halfmove_clock();
+    let full1 = b.fullmove_clock();
+    let hash1 = b.current_position_hash();
+    let rights1 = b.peek_castle_rights();
+    let ep1 = b.peek_en_passant_target();
+    assert!(half1 == if p1 == Piece::Pawn { 0 } else { half0 + 1 });
+    // second ply: symbolic black move
+    let f: u8 = kani::any();
+    let t: u8 = kani::any();
+    kani::assume(f < 64 && t < 64 && f != t);
+    let src = b.get(sq(f));
+    let dst = b.get(sq(t));
+    kani::assume(src.is_some());
+    let (p, c) = src.unwrap();
+    kani::assume(c == Color::Black);
+    let captures = match dst {
+        None => None,
+        Some((q, c2)) => { kani::assume(c2 != c && q != Piece::King); Some(Capture(q)) }
+    };
+    if p == Piece::Pawn {
+        let d = t as i16 - f as i16;
+        let ok = (d == -8 && dst.is_none()) || (d == -16 && f >= 48 && f < 56 && dst.is_none() && b.get(sq(f - 8)).is_none())
+            || ((d == -9 && f % 8 != 0 || d == -7 && f % 8 != 7) && dst.is_some());
+        kani::assume(ok && t >= 8 && t < 56);
+    }
+    let m2 = StandardChessMove::new(sq(f), sq(t), captures);
+    assert!(m2.apply(&mut b).is_ok());
+    assert!(b.halfmove_clock() == if dst.is_some() || p == Piece::Pawn { 0 } else { half1 + 1 });
+    assert!(b.fullmove_clock() == full1 + 1);
+    // undo the second ply: exactly the state after the first
+    assert!(m2.undo(&mut b).is_ok());
+    assert!(b.halfmove_clock() == half1 && b.fullmove_clock() == full1 && b.current_position_hash() == hash1);
+    assert!(b.peek_castle_rights() == rights1 && b.peek_en_passant_target() == ep1);
+    // undo the first ply: exactly the initial state
+    assert!(m1.undo(&mut b).is_ok());
+    assert!(b.halfmove_clock() == half0 && b.fullmove_clock() == full0 && b.current_position_hash() == hash0);
+    assert!(b.peek_castle_rights() == rights0 && b.peek_en_passant_target() == ep0);
+    let i: u8 = kani::any();
+    kani::assume(i < 64);
+    assert!(b.get(sq(i)) == board_a().get(sq(i)));
+}
